@@ -277,6 +277,7 @@ def _getitem(E, v, idx):
             _tensor_bounds_or_raise(E, idx, v.length)
             data = v.data
             lz = C.to_z3(v.length) if not isinstance(v.length, int) else z3.IntVal(v.length)
+            E.st.ghost.setdefault("gather_indices", []).append(idx)
 
             def fn(*q):
                 iz = C.as_int(idx.at(*q))
@@ -492,6 +493,13 @@ def np_nonzero(E, a):
     if a1.ndim != 1:
         raise Unsupported("nonzero rank")
     nz = T.dim_z(a1.shape[0])
+    # all entries provably zero: the result is empty (so that callers' empty-case
+    # behaviour - e.g. rng.integers(0, 0) raising - is decided, not forked)
+    from ..state import prove as _prove
+    sk = E.st.fresh("nz_i", INT)
+    v, *_ = _prove(E.st.pc, E.st.qfacts, z3.Implies(z3.And(sk >= 0, sk < nz), C.as_num(a1.at(sk)) == 0), extra_pool=[sk], timeout_ms=4000, quick=True)
+    if v == "unsat":
+        return (Tensor((0,), lambda q: 0, INT),)
     cnt = E.st.fresh_sym("nnz", INT)
     f = z3.Function(E.st.fresh_name("nzidx"), INT, INT)
     inv = z3.Function(E.st.fresh_name("nzpos"), INT, INT)
